@@ -67,6 +67,19 @@ func (jenny *Builder) generateBuilder(context languages.Context, builder ast.Bui
 		buildObjectSignature = jenny.typeFormatter.variantInterface(builder.For.Type.ImplementedVariant())
 	}
 
+	// the names under which the packages that the builder refers to are imported
+	referredPackages := make(map[string]struct{})
+	common.ReferredPackages(builder, referredPackages)
+	importedPackages := make(map[string]struct{}, len(referredPackages))
+	for pkg := range referredPackages {
+		// the package of the builder itself is not imported
+		if imports.IsIdentical(pkg, builder.Package) {
+			continue
+		}
+
+		importedPackages[formatPackageName(pkg)] = struct{}{}
+	}
+
 	constructorName := "New" + formatObjectName(builder.For.SelfRef.ReferredType)
 	constructorPkg := jenny.typeImportMapper(builder.For.SelfRef.ReferredPkg)
 	if constructorPkg != "" {
@@ -98,6 +111,16 @@ func (jenny *Builder) generateBuilder(context languages.Context, builder ast.Bui
 	return jenny.Tmpl.
 		Funcs(common.TypeResolvingTemplateHelpers(context)).
 		Funcs(map[string]any{
+			// the packages imported by the file are known under their name: an argument of that name
+			// would take the place of the package in the body of the option (`make([]other.Thing, …)`)
+			"formatArgName": func(name string) string {
+				formatted := formatArgName(name)
+				if _, hidesPackage := importedPackages[formatted]; hidesPackage {
+					return formatted + "Arg"
+				}
+
+				return formatted
+			},
 			"importPkg": jenny.typeImportMapper,
 			"importStdPkg": func(pkg string) string {
 				return imports.Add(pkg, pkg)
